@@ -27,7 +27,7 @@ pub fn generate(a: &Args) {
                 let (llrs, limit) = if !pool.is_empty() && rng.coin(1, 4) {
                     pool[rng.below(pool.len())].clone()
                 } else {
-                    let cls = rng.below(12);
+                    let cls = rng.below(13);
                     let mut limit = *rng.pick(&limits);
                     if prev_iterated && rng.coin(1, 2) {
                         limit = 0; // a limit-0 call directly after an iterating frame is forced into every history
